@@ -447,6 +447,7 @@ def mon_protocol(tr, pid='C08', decision=None):
     setup_by_tr = {}
     first_by_tr = {}
     states = {'c': {}, 's': {}}
+    cur_cx = {'c': 0, 's': 0}
     last_rr_cancelled = {}
     for e in tr.world.log:
         side = e['side']
@@ -460,6 +461,10 @@ def mon_protocol(tr, pid='C08', decision=None):
         f = e['f']
         t = f['type']
         sid = f['sid']
+        # a new connection of this endpoint (reconnect): nothing of the previous one carries over
+        if e.get('cx') is not None and e['cx'] > cur_cx[side]:
+            cur_cx[side] = e['cx']
+            states[side] = {}
         st = states[side]
 
         def bad(kind, sig=None, **kw):
@@ -1003,6 +1008,9 @@ def mon_connection_loss(tr, pid='C11', affected=('c', 's'), settled_mark='settle
         k = spec['k']
         if st.get('issue_raised'):
             continue
+        if st.get('deferred') or (any(e['ev'] == 'subscribe_deferred' and e.get('uid') == uid for e in log) and not any(
+                e['ev'] == 'subscribe_late' and e.get('uid') == uid and e['seq'] < fseq for e in log)):
+            continue  # a publisher that was never subscribed before the loss has nobody to signal
         issue = next((e for e in log if e['ev'] == 'issue' and e.get('uid') == uid), None)
         if issue is None or issue['seq'] > fseq:
             continue
@@ -1094,6 +1102,9 @@ def mon_connection_loss(tr, pid='C11', affected=('c', 's'), settled_mark='settle
         evs = [e for e in log if e.get('uid') == uid]
         if any(e['ev'] in ('sub_cancel', 'rr_cancel_call') and e['side'] == spec['side'] for e in evs):
             continue  # the application cancelled it itself: no terminal signal is owed
+        if any(e['ev'] == 'subscribe_deferred' for e in evs) and not any(
+                e['ev'] == 'subscribe_late' and e['seq'] < later_close['seq'] for e in evs):
+            continue  # a cold publisher that was never subscribed has nobody to signal
         if spec['k'] == 'rr' and not any(e['ev'] in ('rr_result', 'rr_error', 'rr_cancelled') for e in evs):
             out.append(viol('request_left_hanging', '%s:hanging_after_close:rr' % pid, uid=uid, k='rr', fault=fkind,
                             issued='after the loss, before close()'))
